@@ -201,13 +201,18 @@ func GenLCase(seed uint64) *LCase {
 		if !strings.HasPrefix(mod.abs, strings.TrimSuffix(c.Root, "/")+"/") {
 			rel = relTo(c.Root, mod.abs)
 		}
-		switch r.Intn(4) {
+		switch r.Intn(5) {
 		case 0:
 			rel = "/" + rel
 		case 1:
 			rel = "./" + rel
 		case 2:
 			rel = "lib/../" + rel
+		case 3:
+			if strings.HasPrefix(rel, "../") {
+				// written with backslashes: one odd file name inside the root, not a way out
+				rel = strings.ReplaceAll(rel, "/", "\\")
+			}
 		}
 		c.Module = rel
 	} else {
@@ -379,6 +384,12 @@ func RunLCaseExec(c *LCase, cnt core.Counters, exec Exec, allow []string) (*LRes
 				canaryDir, canaryBefore = tmp, snapshotReal(tmp)
 			}
 		}
+	}
+	if c.Seed%4 == 1 {
+		old := logrus.GetLevel()
+		logrus.SetLevel(logrus.DebugLevel) // sysl -v
+		defer logrus.SetLevel(old)
+		cnt.Inc("lcases_at_debug_log_level")
 	}
 	func() {
 		defer func() {
